@@ -42,10 +42,17 @@ pub struct PreGc {
     pub info: mmtk::verif::GcInfo,
     /// strong closure from the roots (not following referent slots)
     pub s0: HashSet<u64>,
-    /// s0 + closure of referents of soft references in s0
+    /// certainly live after soft-reference retention: s0 + closure of referents of soft
+    /// references in s0
     pub s1: HashSet<u64>,
-    /// s1 + closure of registered finalizables not in s1
+    /// possibly live after soft-reference retention (MMTk retains referents in hash-set order, so
+    /// a soft reference reached only through another retained referent may or may not have been
+    /// live when it was visited): fixpoint of adding referents of soft references in the set
+    pub s1_max: HashSet<u64>,
+    /// certainly live after finalization: s1 + closure of registered finalizables not in s1_max
     pub s2: HashSet<u64>,
+    /// possibly live after finalization: s1_max + closure of registered finalizables not in s1
+    pub s2_max: HashSet<u64>,
     /// registered finalizables not in s1 (expected to become ready in an exact GC)
     pub fin_expected_ready: HashSet<u64>,
     /// referent id of each reference object at GC start
@@ -76,6 +83,9 @@ pub struct Shadow {
     pub immortal_dead: HashSet<u64>,
     /// id -> outstanding finalizer registrations
     pub fin_registered: HashMap<u64, u32>,
+    /// registered finalizables that were not certainly live at the start of some pause since
+    /// their registration, i.e. that MMTk may legitimately hand out
+    pub fin_may_be_ready: HashSet<u64>,
     /// popped finalizables the VM still holds: real cells (raw refs) + ids
     pub vm_strong: Vec<(Box<usize>, u64)>,
     pub ephemerons: Vec<Eph>,
@@ -101,6 +111,7 @@ impl Shadow {
             epoch: 0,
             immortal_dead: HashSet::new(),
             fin_registered: HashMap::new(),
+            fin_may_be_ready: HashSet::new(),
             vm_strong: Vec::new(),
             ephemerons: Vec::new(),
             eph_rounds_this_gc: 0,
@@ -179,8 +190,13 @@ impl Shadow {
     }
 }
 
-fn never_collected(sem: u8) -> bool {
+/// Objects with this semantics live in a space that is never collected.
+pub fn never_collected(sem: u8) -> bool {
     if sem == SEM_IMMORTAL {
+        return true;
+    }
+    // variant C is built with `immortal_as_nonmoving`
+    if sem == SEM_NONMOVING && cfg!(feature = "layout_c") {
         return true;
     }
     world().cfg.plan == "NoGC"
@@ -214,14 +230,37 @@ pub fn on_world_stopped() {
     if !info.emergency {
         sh.closure(soft_seeds, false, false, &mut pre.s1);
     }
-    pre.s2 = pre.s1.clone();
-    let fin: Vec<u64> = sh.fin_registered.keys().copied().collect();
-    for f in &fin {
-        if !pre.s1.contains(f) {
-            pre.fin_expected_ready.insert(*f);
+    // upper bound: keep adding referents of soft references that are in the set
+    pre.s1_max = pre.s1.clone();
+    if !info.emergency {
+        loop {
+            let mut more = vec![];
+            for id in pre.s1_max.iter() {
+                if let Some(o) = sh.objs.get(id) {
+                    if o.kind == KIND_SOFT && o.fields[0] != 0 && !pre.s1_max.contains(&o.fields[0]) {
+                        more.push(o.fields[0]);
+                    }
+                }
+            }
+            if more.is_empty() {
+                break;
+            }
+            sh.closure(more, false, false, &mut pre.s1_max);
         }
     }
-    sh.closure(fin.iter().copied(), false, false, &mut pre.s2);
+    let fin: Vec<u64> = sh.fin_registered.keys().copied().collect();
+    for f in &fin {
+        if !pre.s1_max.contains(f) {
+            pre.fin_expected_ready.insert(*f);
+        }
+        if !pre.s1.contains(f) {
+            sh.fin_may_be_ready.insert(*f);
+        }
+    }
+    pre.s2 = pre.s1.clone();
+    sh.closure(pre.fin_expected_ready.iter().copied().collect::<Vec<_>>(), false, false, &mut pre.s2);
+    pre.s2_max = pre.s1_max.clone();
+    sh.closure(fin.iter().copied().filter(|f| !pre.s1.contains(f)).collect::<Vec<_>>(), false, false, &mut pre.s2_max);
     for (id, o) in sh.objs.iter() {
         if o.kind != KIND_NORMAL {
             pre.referent_of.insert(*id, o.fields[0]);
@@ -558,7 +597,9 @@ fn check_references(sh: &mut Shadow, pre: &PreGc, cleared: &HashSet<u64>, enqueu
     for rid in cleared {
         evals += 1;
         let Some(&referent) = pre.referent_of.get(rid) else { continue };
-        if referent != 0 && pre.s0.contains(&referent) {
+        // only a strongly reachable reference object is certainly live for MMTk; clearing the
+        // referent of a dead reference object is legitimate
+        if referent != 0 && pre.s0.contains(&referent) && pre.s0.contains(rid) {
             let kind = sh.objs.get(rid).map(|o| o.kind).unwrap_or(0);
             violation("C06", format!("reference:cleared-strongly-reachable-referent:kind{}", kind), format!("reference object id {} (kind {}) was cleared although its referent id {} is strongly reachable", rid, kind, referent));
         } else {
@@ -599,11 +640,17 @@ fn check_references(sh: &mut Shadow, pre: &PreGc, cleared: &HashSet<u64>, enqueu
             if o.enqueued && !enqueued.contains(rid) {
                 continue; // already processed in an earlier GC
             }
-            let (r_live, ref_live) = match o.kind {
-                KIND_SOFT | KIND_WEAK => (pre.s1.contains(rid), pre.s1.contains(referent)),
-                _ => (pre.s2.contains(rid), pre.s2.contains(referent)),
+            // r_live: the reference object is certainly live at its processing stage;
+            // ref_live / ref_maybe_live: the referent is certainly / possibly live at that stage
+            let (r_live, ref_live, ref_maybe_live) = match o.kind {
+                KIND_SOFT | KIND_WEAK => (pre.s1.contains(rid), pre.s1.contains(referent), pre.s1_max.contains(referent)),
+                _ => (pre.s2.contains(rid), pre.s2.contains(referent), pre.s2_max.contains(referent)),
             };
-            if r_live && !ref_live {
+            // a soft reference reached only through another soft referent is order dependent
+            if o.kind == KIND_SOFT && !pre.s0.contains(rid) {
+                continue;
+            }
+            if r_live && !ref_maybe_live {
                 must_clear += 1;
                 if !cleared.contains(rid) {
                     violation("C06", format!("reference:not-cleared-after-exhaustive-gc:kind{}", o.kind), format!("reference object id {} (kind {}) still refers to id {} which was unreachable in an exhaustive collection", rid, o.kind, referent));
@@ -748,18 +795,11 @@ pub fn on_finalizable_popped(sh: &mut Shadow, id: u64, addr: usize, pre: Option<
             violation("C06", "finalizable:returned-more-often-than-registered", format!("get_finalized_object returned object id {} with no outstanding registration", id));
         }
     }
-    // must not be strongly reachable
-    let reachable = match pre {
-        Some(p) => p.s1.contains(&id),
-        None => {
-            let mut s = HashSet::new();
-            let roots = sh.root_ids();
-            sh.closure(roots, false, false, &mut s);
-            s.contains(&id)
-        }
-    };
-    if reachable {
-        violation("C06", "finalizable:reachable-object-returned", format!("get_finalized_object returned object id {} which is strongly reachable", id));
+    // It must have been (possibly) unreachable at the start of some pause since it was
+    // registered; an object that was strongly reachable at every pause must never be returned.
+    let _ = pre;
+    if !sh.fin_may_be_ready.remove(&id) {
+        violation("C06", "finalizable:reachable-object-returned", format!("get_finalized_object returned object id {} which was strongly reachable at the start of every pause since its registration", id));
     }
     match sh.objs.get(&id) {
         Some(o) => {
@@ -888,11 +928,14 @@ pub fn process_weak_refs(
 
     let mut retained_now: Vec<u64> = vec![];
     let mut to_trace: Vec<usize> = vec![]; // indices into ephemerons
+    let already: HashSet<u64> = sh.eph_retained_this_gc.iter().copied().collect();
     for (i, e) in sh.ephemerons.iter().enumerate() {
         let k = objref(e.key_addr);
         if k.is_reachable() {
             let v = objref(e.val_addr);
-            if !v.is_reachable() {
+            // a value is traced at most once per GC: in a nursery GC `is_reachable()` stays false
+            // for objects of spaces that are not traced (immortal, non-moving) even after tracing
+            if !v.is_reachable() && !already.contains(&e.val) {
                 to_trace.push(i);
             }
         }
